@@ -309,6 +309,19 @@ func e712Impl(req map[string]any) any {
 	}
 	ctx := context.Background()
 	h, err := eip712.EncodeTypedDataV4(ctx, &td)
+	if gf, has := req["goFloat"].(string); has {
+		// the same integer handed over as a Go float64 (a document assembled from plainly decoded JSON): same
+		// digest as the decimal-string spelling in the text, or rejected exactly when that one is
+		z, _ := new(big.Int).SetString(gf, 10)
+		f, _ := new(big.Float).SetInt(z).Float64()
+		var td3 eip712.TypedData
+		_ = json.Unmarshal([]byte(str(req, "text")), &td3)
+		td3.Message = map[string]interface{}{"v": f}
+		h3, err3 := eip712.EncodeTypedDataV4(ctx, &td3)
+		if (err == nil) != (err3 == nil) || (err == nil && hx(h) != hx(h3)) {
+			return map[string]any{"goFloatDiffers": true, "text": fmt.Sprintf("err=%v digest=%s", err != nil, hx(h)), "float": fmt.Sprintf("err=%v digest=%s", err3 != nil, hx(h3))}
+		}
+	}
 	if err != nil {
 		return "err"
 	}
@@ -354,6 +367,9 @@ func e712Judge(prop string) func(c *Ctx, req map[string]any, impl any, orc map[s
 		var fs []Finding
 		if impl == "panic" {
 			return []Finding{{Kind: "violation", Region: "eip712.panic", Detail: "hashing / signing a typed-data document panicked"}}
+		}
+		if m, isMap := impl.(map[string]any); isMap && m["goFloatDiffers"] == true {
+			return []Finding{{Kind: "violation", Region: "eip712.go-float64", Detail: fmt.Sprintf("an integer member given as a Go float64 is treated differently from the same integer given as a decimal string: string form %v, float64 form %v", m["text"], m["float"])}}
 		}
 		var implDigest any = "err"
 		if m, isok := impl.(map[string]any); isok {
@@ -702,6 +718,15 @@ func init() {
 						text := buildDoc(r, ts, "Msg", nil, false, "omit", oobj{{"v", f}}, false, false)
 						addE712Case(c, text, map[string]any{"expect": "reject"}, "nonintegral")
 					}
+				}
+			}
+			// 1a. integers that a float64 holds exactly, handed over as Go float64 values
+			for _, tname := range []string{"int64", "uint64", "int256", "uint256", "uint8", "int8"} {
+				ts := e712Types{"Msg": {{"v", tname}}}
+				for _, z := range []*big.Int{big.NewInt(0), big.NewInt(1), big.NewInt(-1), big.NewInt(127), big.NewInt(128), big.NewInt(255), big.NewInt(256), pow2(53), pow2(62), pow2(63), new(big.Int).Neg(pow2(63)),
+					new(big.Int).Add(pow2(63), big.NewInt(2048)), new(big.Int).Sub(pow2(63), big.NewInt(1024)), pow2(64), new(big.Int).Neg(pow2(64)), pow2(200), pow2(255), new(big.Int).Neg(pow2(255)), pow2(256)} {
+					text := buildDoc(r, ts, "Msg", nil, false, "omit", oobj{{"v", z.String()}}, false, false)
+					addE712Case(c, text, map[string]any{"goFloat": z.String()}, "gofloat."+tname)
 				}
 			}
 			// 1b. things a float parser takes that are no integers at all: infinities, not-a-number, exponents beyond any
